@@ -24,7 +24,14 @@ Inner == {Arr(<< >>), Obj({}), Arr(<<Num("pos"), Str(<<"N">>)>>),
           Obj({[k |-> <<"A">>, v |-> Num("frac")]})}
 Nested == {Arr(<<x, y>>) : x \in Inner, y \in Inner \cup {Null}}
           \cup {Obj({[k |-> <<"A">>, v |-> x], [k |-> <<"S">>, v |-> y]}) : x \in Inner, y \in Inner}
-Values == Scalars \cup Arrs1 \cup Objs1 \cup Nested
+\* wider and deeper shapes: three members / elements (ordering and separators beyond the first pair), nesting to
+\* depth 4, a non-integer three levels down
+K3 == {<<<<"A">>, <<"U">>, <<"S">>>>, <<<<"Q">>, <<"B">>, <<"N">>>>, <<<< >>, <<"A">>, <<"A", "A">>>>, <<<<"C">>, <<"E">>, <<"D">>>>}
+Wide == {Obj({[k |-> ks[1], v |-> Num("pos")], [k |-> ks[2], v |-> Str(<<"A">>)], [k |-> ks[3], v |-> Null]}) : ks \in K3}
+        \cup {Arr(<<x, y, z>>) : x \in {Num("zero"), Str(<<"Q">>)}, y \in {Null, Arr(<< >>)}, z \in {Num("i64max"), Obj({})}}
+DeepOf(x) == Arr(<<Obj({[k |-> <<"A">>, v |-> Arr(<<Obj({[k |-> <<"U">>, v |-> x]})>>)]})>>)
+Deeper == {DeepOf(x) : x \in {Num("u64max"), Num("frac"), Num("exp"), Str(<<"N">>), Arr(<< >>), Obj({}), Bool(FALSE)}}
+Values == Scalars \cup Arrs1 \cup Objs1 \cup Nested \cup Wide \cup Deeper
 
 \* a canonical writer that is free in exactly what C10 leaves free (member order is
 \* fixed by code points of the concrete keys, which the abstract level does not see)
